@@ -279,6 +279,22 @@ pub fn draw_plan(r: &mut Rng, gp: &GenParams, present_defs: &[usize], defs: &[De
     plan
 }
 
+/// A job that failed in the previous evaluation is still broken in this one (one round in three that
+/// follows a failure): the same definitions fail again, whatever else the plan draws. Dependants stay
+/// upstream-failed over several evaluations while the graph around them is edited.
+fn sticky_failures(r: &mut Rng, gp: &GenParams, prev: &EvalPlan, plan: &mut EvalPlan, present: &[usize]) {
+    if gp.force_fault_free || prev.fail.is_empty() {
+        return;
+    }
+    if r.chance(1, 3) {
+        for (d, leave) in prev.fail.iter() {
+            if present.contains(d) {
+                plan.fail.insert(*d, *leave);
+            }
+        }
+    }
+}
+
 pub fn generate(seed: u64, gp: &GenParams) -> Scenario {
     let root = Rng::new(seed);
     let mut r = root.fork("cfg");
@@ -607,7 +623,7 @@ pub fn generate(seed: u64, gp: &GenParams) -> Scenario {
     // ---- rounds
     let mut r = root.fork("rounds");
     let n_rounds = 1 + r.below(gp.max_rounds);
-    let mut rounds = Vec::new();
+    let mut rounds: Vec<Round> = Vec::new();
     let mut g = GraphState::default();
     let mut undo_prev: Vec<(u8, Edit)> = Vec::new();
     for round in 0..n_rounds {
@@ -798,7 +814,10 @@ pub fn generate(seed: u64, gp: &GenParams) -> Scenario {
         }
         let present: Vec<usize> = g.present.iter().cloned().collect();
         let bumped: Vec<usize> = edits.iter().filter_map(|e| if let Edit::BumpExt { def } | Edit::RevertExt { def } = e { Some(*def) } else { None }).collect();
-        let plan = draw_plan(&mut r, gp, &present, &defs, &g, round, &bumped);
+        let mut plan = draw_plan(&mut r, gp, &present, &defs, &g, round, &bumped);
+        if let Some(prev) = rounds.last() {
+            sticky_failures(&mut r, gp, &prev.plan, &mut plan, &present);
+        }
         rounds.push(Round { edits, plan });
     }
     Scenario { seed, profile: gp.profile.to_string(), cfg, defs, rounds }
@@ -1000,6 +1019,10 @@ pub fn corpus_variant(base: &Scenario, seed: u64, gp: &GenParams) -> Scenario {
         let present: Vec<usize> = g.present.iter().cloned().collect();
         let bumped: Vec<usize> = sc.rounds[ri].edits.iter().filter_map(|e| if let Edit::BumpExt { def } | Edit::RevertExt { def } = e { Some(*def) } else { None }).collect();
         sc.rounds[ri].plan = draw_plan(&mut r, gp, &present, &sc.defs, &g, ri, &bumped);
+        if ri > 0 {
+            let prev = sc.rounds[ri - 1].plan.clone();
+            sticky_failures(&mut r, gp, &prev, &mut sc.rounds[ri].plan, &present);
+        }
     }
     sc
 }
